@@ -280,6 +280,8 @@ def native_build(prop, inst, extra_defs=None, tag="native"):
                 f.write(fun())
         cmd.append("-I" + d)
     cmd += [c for c in inst.cflags if not c.startswith("-I" + os.path.join(HARNESS, "shim"))]
+    if "HAVE_AVX2" in defs:
+        cmd.append("-mavx2")    # native replay of the AVX2 variants uses the real intrinsics (the shim is for CBMC only)
     cmd += [os.path.join(HARNESS, inst.harness), os.path.join(HARNESS, "vk_native.c")]
     cmd += [os.path.join(HARNESS, m) for m in inst.native_models]
     cmd += [os.path.join(REPO, s) for s in srcs] + ["-lm"]
